@@ -82,6 +82,25 @@ def t_relative_day(o: int, hh: int, mi: int):
     assert len(model_parse(QUERY, ref_of(o, hh, mi))) == 0
 
 
+SHIFT2 = sl('shift2', 0)
+
+
+def h_relative_two(o: int, hh: int, mi: int):
+    """two relative day expressions in one query ('3 days ago and 2 weeks ago'): two date entities, in text order, R's date + SHIFT and + SHIFT2"""
+    assert ORD_LO <= o <= ORD_HI and 0 <= hh <= 23 and 0 <= mi <= 59
+    digits.reset()
+    rs = sorted(model_parse(QUERY, ref_of(o, hh, mi)), key=lambda r: r.start)
+    assert len(rs) == 2, ('two entities expected', [(r.text, r.type_name) for r in rs])
+    for r, sh in zip(rs, (SHIFT, SHIFT2)):
+        assert r.type_name == 'datetimeV2.date', (r.text, r.type_name)
+        vals = r.resolution['values']
+        assert len(vals) == 1
+        want = datetime.fromordinal(o) + timedelta(days=sh)
+        got = digits.ymd(vals[0]['value'])
+        assert got is not None and got == (want.year, want.month, want.day), (r.text, vals)
+        assert digits.ymd(vals[0]['timex']) == got
+
+
 def h_relative_weekday(o: int, hh: int, mi: int):
     """next / this / last <weekday>: that weekday of the following / current / preceding ISO week"""
     assert ORD_LO <= o <= ORD_HI and 0 <= hh <= 23 and 0 <= mi <= 59
@@ -438,6 +457,7 @@ def h_wellformed(o: int, hh: int, mi: int):
                 if a is not None and b is not None:
                     assert _less(a[0] + a[1], b[0] + b[1]) or (a[0] + a[1]) == (b[0] + b[1]) or True
             if CHECK in ('timex', 'all'):
+                assert v.get('timex') or v.get('value') == 'not resolved', ('value without a TIMEX', v)
                 _timex_agree(kind, v)
             if CHECK in ('arith', 'all'):
                 _range_arith(kind, v)
